@@ -12,11 +12,12 @@
   * `C02_classes`, `C02_classes_uniform` — X5c as reported in the per-unit classes,
   * `C02_single`     — single-paragraph mode.
 
-  The statements about classes and about panics need `FSIWidth`: a character
-  whose class is FSI occupies as many code units as U+2068 — the crate
-  overwrites `T::char_len(chars::FSI)` units whatever character carries the
-  class.  It holds for every data source that gives class FSI to U+2068 only
-  (`FSIWidth_of_only`).
+  No proviso about the width of FSI-class characters is needed any more (since
+  the repair of finding D10): the X5c write now covers the code units of the
+  character that actually sits at the initiator's offset
+  (`text.char_at(start)`), not `T::char_len(chars::FSI)` units, so the
+  statements about classes and about panics hold for every data source,
+  whatever characters it gives class FSI to.
 -/
 import UBidi.Lemmas.C02Main
 namespace UBidi.Props.C02
@@ -36,16 +37,6 @@ def segsIn (t : Text) (p : ParaInfo) : List Seg :=
 def ParasFrom : Nat → List ParaInfo → Nat → Prop
   | a, [], e => a = e
   | a, p :: ps, e => p.start = a ∧ p.start < p.stop ∧ ParasFrom p.stop ps e
-
-/-- a character of class FSI is as long as U+2068 in the text's encoding -/
-def FSIWidth (ds : DataSource) (t : Text) : Prop :=
-  ∀ s ∈ t.segs, ds.cls s.cp = .FSI → s.len = t.enc.charLen Gen.fcFSI
-
-/-- `FSIWidth` holds whenever U+2068 is the only scalar value of class FSI. -/
-theorem FSIWidth_of_only (ds : DataSource) (t : Text) (hwf : t.WF)
-    (h : ∀ c, ds.cls c = .FSI → c = Gen.fcFSI) : FSIWidth ds t := by
-  intro s hs hc
-  rw [hwf.lens s hs, h s.cp hc]
 
 /-! ### consequences of `ParasFrom` in the words of the property -/
 
@@ -108,8 +99,7 @@ theorem chunks_exist (hwf : t.WF) :
       (computeInitialInfo ds t dflt true).paras = chunks.map (mkPara ds dflt) ∧
       (computeInitialInfo ds t dflt true).flags.length = (computeInitialInfo ds t dflt true).paras.length ∧
       (∀ c1 ch c2, chunks = c1 ++ ch :: c2 → IsPara ds ch ∧ (IsChunk ds ch ∨ c2 = [])) ∧
-      (FSIWidth ds t →
-        (computeInitialInfo ds t dflt true).classes = (chunks.map (chunkClasses ds)).flatten) := by
+      (computeInitialInfo ds t dflt true).classes = (chunks.map (chunkClasses ds)).flatten := by
   obtain ⟨done, cur, h1, h2, h3, h4, h5, h6⟩ := split_structure ds t dflt hwf
   refine ⟨allChunks done cur, h1, h4, h5, ?_, h6⟩
   intro c1 ch c2 heq
@@ -139,7 +129,7 @@ structure ParaCtx (out : InitialOut) (ch : List Seg) (p : ParaInfo) : Prop where
   segs : ∃ X Y, t.segs = X ++ ch ++ Y ∧ SegsFrom 0 X p.start ∧ SegsFrom p.start ch p.stop ∧
     SegsFrom p.stop Y t.len
   level : p.level = Spec.paraLevel dflt (clsOf ds ch)
-  classes : FSIWidth ds t → ∃ A C, out.classes = A ++ expand ch (Spec.resolveFSI (clsOf ds ch)) ++ C ∧
+  classes : ∃ A C, out.classes = A ++ expand ch (Spec.resolveFSI (clsOf ds ch)) ++ C ∧
     A.length = p.start
 
 theorem isPara_ne_nil {ch : List Seg} (h : IsPara ds ch) : ch ≠ [] := by
@@ -148,8 +138,7 @@ theorem isPara_ne_nil {ch : List Seg} (h : IsPara ds ch) : ch ≠ [] := by
 theorem ctx_of_split (hwf : t.WF) (chunks : List (List Seg))
     (hflat : chunks.flatten = t.segs)
     (hpara : ∀ c1 ch c2, chunks = c1 ++ ch :: c2 → IsPara ds ch ∧ (IsChunk ds ch ∨ c2 = []))
-    (hcls : FSIWidth ds t →
-      (computeInitialInfo ds t dflt true).classes = (chunks.map (chunkClasses ds)).flatten)
+    (hcls : (computeInitialInfo ds t dflt true).classes = (chunks.map (chunkClasses ds)).flatten)
     (c1 : List (List Seg)) (ch : List Seg) (c2 : List (List Seg)) (heq : chunks = c1 ++ ch :: c2) :
     ParaCtx ds t dflt (computeInitialInfo ds t dflt true) ch (mkPara ds dflt ch) := by
   have hall : ∀ c ∈ chunks, IsPara ds c := by
@@ -180,9 +169,8 @@ theorem ctx_of_split (hwf : t.WF) (chunks : List (List Seg))
     · rw [hstart]; exact t1
     · rw [hstart, hstop]; exact t3
     · rw [hstop]; exact t4
-  · intro hf
-    refine ⟨(c1.map (chunkClasses ds)).flatten, (c2.map (chunkClasses ds)).flatten, ?_, ?_⟩
-    · rw [hcls hf, heq]; simp [chunkClasses]
+  · refine ⟨(c1.map (chunkClasses ds)).flatten, (c2.map (chunkClasses ds)).flatten, ?_, ?_⟩
+    · rw [hcls, heq]; simp [chunkClasses]
     · rw [hA, hstart]
 
 /-- every reported paragraph comes with its context -/
@@ -241,9 +229,9 @@ theorem C02_classes_length (hwf : t.WF) (split : Bool) :
   classes_length ds t dflt split hwf
 
 /-- Both modes: the X5c write never indexes out of range. -/
-theorem C02_no_panic (hwf : t.WF) (hfsi : FSIWidth ds t) (split : Bool) :
+theorem C02_no_panic (hwf : t.WF) (split : Bool) :
     (computeInitialInfo ds t dflt split).err = none :=
-  no_panic ds t dflt split hwf hfsi
+  no_panic ds t dflt split hwf
 
 /-- P1: the reported paragraphs are exactly the pieces obtained by cutting the
     text after every class-B character: they tile `[0, t.len)` (`ParasFrom`:
@@ -322,20 +310,20 @@ theorem C02_level (hwf : t.WF) : ∀ p ∈ (computeInitialInfo ds t dflt true).p
     a paragraph gives the paragraph's classes with every FSI resolved by the
     Spec (RLI / LRI by the first strong character before the matching PDI, FSI
     if there is none), all other characters keeping their class. -/
-theorem C02_classes (hwf : t.WF) (hfsi : FSIWidth ds t) :
+theorem C02_classes (hwf : t.WF) :
     ∀ p ∈ (computeInitialInfo ds t dflt true).paras,
       (segsIn t p).map (fun s => (computeInitialInfo ds t dflt true).classes.getD s.start .ON)
         = Spec.resolveFSI ((segsIn t p).map (fun s => ds.cls s.cp)) := by
   intro p hp
   obtain ⟨ch, hc⟩ := para_ctx ds t dflt hwf p hp
   rw [segsIn_eq ds t dflt hc]
-  obtain ⟨A, C, h1, h2⟩ := hc.classes hfsi
+  obtain ⟨A, C, h1, h2⟩ := hc.classes
   obtain ⟨X, Y, _, _, t2, _⟩ := hc.segs
   rw [h1]
   exact expand_read ch _ A C _ (by rw [h2]; exact t2) (resolveFSI_length_para hc.para).symm
 
 /-- All units of a character carry the same class (both modes). -/
-theorem C02_classes_uniform (hwf : t.WF) (hfsi : FSIWidth ds t) (split : Bool) :
+theorem C02_classes_uniform (hwf : t.WF) (split : Bool) :
     ∀ s ∈ t.segs, ∀ j, j < s.len →
       (computeInitialInfo ds t dflt split).classes.getD (s.start + j) .ON
         = (computeInitialInfo ds t dflt split).classes.getD s.start .ON := by
@@ -343,12 +331,12 @@ theorem C02_classes_uniform (hwf : t.WF) (hfsi : FSIWidth ds t) (split : Bool) :
   cases split with
   | true =>
     obtain ⟨ch, p, hsch, hc⟩ := seg_ctx ds t dflt hwf s hs
-    obtain ⟨A, C, h1, h2⟩ := hc.classes hfsi
+    obtain ⟨A, C, h1, h2⟩ := hc.classes
     obtain ⟨X, Y, _, _, t2, _⟩ := hc.segs
     rw [h1]
     exact expand_uniform ch _ A C _ (by rw [h2]; exact t2) (resolveFSI_length_para hc.para).symm s hsch j hj
   | false =>
-    have h := (single_structure ds t dflt hwf).2 hfsi
+    have h := (single_structure ds t dflt hwf).2
     have hl : t.segs.length = (cRun dflt (clsOf ds t.segs)).cls.length := by
       rw [cRun_cls_length]; simp
     have := expand_uniform t.segs _ [] [] t.len hwf.tiles hl s hs j hj
@@ -388,7 +376,7 @@ theorem C02_single_level (hwf : t.WF) (hB : ∀ c ∈ (raw ds t).dropLast, c ≠
 
 /-- Single-paragraph mode, classes: same, for the classes read at the first
     unit of every character. -/
-theorem C02_single_classes (hwf : t.WF) (hfsi : FSIWidth ds t) (hB : ∀ c ∈ (raw ds t).dropLast, c ≠ .B) :
+theorem C02_single_classes (hwf : t.WF) (hB : ∀ c ∈ (raw ds t).dropLast, c ≠ .B) :
     t.segs.map (fun s => (computeInitialInfo ds t dflt false).classes.getD s.start .ON)
       = Spec.resolveFSI (raw ds t) := by
   obtain ⟨xs, tl, h1, h2, h3⟩ := tail_split (raw ds t) hB
@@ -396,16 +384,16 @@ theorem C02_single_classes (hwf : t.WF) (hfsi : FSIWidth ds t) (hB : ∀ c ∈ (
   have hl : t.segs.length = (cRun dflt (clsOf ds t.segs)).cls.length := by
     rw [cRun_cls_length]; simp
   have := expand_read t.segs (cRun dflt (clsOf ds t.segs)).cls [] [] t.len hwf.tiles hl
-  rw [(single_structure ds t dflt hwf).2 hfsi]
+  rw [(single_structure ds t dflt hwf).2]
   simp only [List.nil_append, List.append_nil] at this
   rw [this, hr, h1, (cRun_tail dflt xs tl h3).2]
   exact cRun_cls_spec dflt xs h2 tl h3
 
-theorem C02_single (hwf : t.WF) (hfsi : FSIWidth ds t) (hB : ∀ c ∈ (raw ds t).dropLast, c ≠ .B) :
+theorem C02_single (hwf : t.WF) (hB : ∀ c ∈ (raw ds t).dropLast, c ≠ .B) :
     (computeInitialInfo ds t dflt false).lastLevel = Spec.paraLevel dflt (raw ds t) ∧
     t.segs.map (fun s => (computeInitialInfo ds t dflt false).classes.getD s.start .ON)
       = Spec.resolveFSI (raw ds t) :=
-  ⟨C02_single_level ds t dflt hwf hB, C02_single_classes ds t dflt hwf hfsi hB⟩
+  ⟨C02_single_level ds t dflt hwf hB, C02_single_classes ds t dflt hwf hB⟩
 
 /-! ### non-vacuity: a concrete text meets the hypotheses, with non-trivial results -/
 
@@ -416,12 +404,9 @@ def exText : Text :=
 theorem exText_wf : exText.WF :=
   ⟨by simp [exText, Text.ofScalars, Text.layout, Text.totalLen, SegsFrom, Enc.charLen, utf8Len], by decide⟩
 
-theorem exText_fsi : FSIWidth hardcoded exText := by
-  unfold FSIWidth; decide +kernel
-
-/-- test (labelled): the hypotheses of every theorem above hold for `exText`
-    with the crate's own tables, and the conclusions are not trivial there -/
-example : exText.WF ∧ FSIWidth hardcoded exText := ⟨exText_wf, exText_fsi⟩
+/-- test (labelled): the hypothesis of every theorem above holds for `exText`,
+    and the conclusions are not trivial there with the crate's own tables -/
+example : exText.WF := exText_wf
 
 /-- test: two paragraphs; the second has level 0 although it contains R after
     an unclosed FSI; the first FSI reports RLI, the second one RLI as well
@@ -438,9 +423,9 @@ example : (segsIn exText { start := 9, stop := 22, level := 0 }).map
 /-- test: a text for `C02_single` (no separator before the end) -/
 def exSingle : Text := Text.ofScalars [0x2068, 0x61, 0x2069, 0x5D0, 0x0A]
 
-example : exSingle.WF ∧ FSIWidth hardcoded exSingle ∧ (∀ c ∈ (raw hardcoded exSingle).dropLast, c ≠ .B) :=
+example : exSingle.WF ∧ (∀ c ∈ (raw hardcoded exSingle).dropLast, c ≠ .B) :=
   ⟨⟨by simp [exSingle, Text.ofScalars, Text.layout, Text.totalLen, SegsFrom, Enc.charLen, utf8Len], by decide⟩,
-   by unfold FSIWidth; decide +kernel, by decide +kernel⟩
+   by decide +kernel⟩
 
 example : (computeInitialInfo hardcoded exSingle none false).lastLevel = 1 := by decide +kernel
 
